@@ -19,7 +19,9 @@ from fractions import Fraction
 from pathlib import Path
 
 VERIF = Path(__file__).resolve().parent.parent
-LEAN = VERIF / "lean"
+# a private copy of the Lean project may be used for runs against a patched copy of the source (tools/with_patch.sh),
+# so that they do not rewrite Generated/ under a concurrent run on /repo itself
+LEAN = Path(os.environ.get("YAW_LEAN_DIR", VERIF / "lean"))
 YAW_SRC = Path(os.environ.get("YAW_SRC", "/repo/src"))
 ALLOWED_AXIOMS = {"propext", "Classical.choice", "Quot.sound"}
 FORBIDDEN = re.compile(r"\bsorry\b|\badmit\b|^axiom |native_decide|bv_decide|implemented_by|\bunsafe |maxHeartbeats 0", re.M)
@@ -122,7 +124,8 @@ class Check:
 
     # ---- stage 1: translate + build + audit ------------------------------------
     def translate(self):
-        r = run([sys.executable, str(VERIF / "translator" / "translate.py"), "--src", str(YAW_SRC)])
+        r = run([sys.executable, str(VERIF / "translator" / "translate.py"), "--src", str(YAW_SRC),
+                 "--out", str(LEAN / "YawVerif" / "Generated")])
         if r.returncode != 0:
             raise Infra(f"translator crashed: {r.stderr[-2000:]}")
         status = json.loads((LEAN / "YawVerif" / "Generated" / "kernels.json").read_text())
